@@ -788,6 +788,99 @@ theorem sort_spec {cfg : Cfg} (hs : CfgStd cfg) {lt : α → α → Bool} (ho : 
     rw [List.append_nil] at h2
     exact h2.trans (newWithData_perm hs.toCfgLayout.left_gt _ vs)
 
+/-! ## `Add` of an element that is not smaller than any held one; removal of the last slot
+
+Both hold for the pinned configuration (whatever `parent` is, as long as `parent i < i`): F1 and F2 are
+not reachable through these two operations. -/
+
+/-- `Add v` when no held element is greater than `v`: `pushUp` stops at once (its one comparison is with
+a held element, since `parent n < n`), the array is simply extended -/
+theorem add_eq_of_max {cfg : Cfg} (hc : CfgOK cfg) (lt : α → α → Bool) (h : H α) (v : α)
+    (hmax : ∀ x ∈ h.data, lt v x = false) :
+    add cfg lt h v = (({ h with data := h.data ++ [v] } : H α).report h.len, h.len) := by
+  simp only [add, pushUp]
+  by_cases h0 : h.len > 0
+  · rw [if_pos h0]
+    have hp : cfg.parent h.len < h.len := hc.parent_lt _ h0
+    have hg : (({ h with data := h.data ++ [v] } : H α).report h.len).get (cfg.parent h.len) = h.get (cfg.parent h.len) := by
+      have hp' : cfg.parent h.len < h.data.length := hp
+      simp [H.get, List.getD_eq_getElem?_getD, List.getElem?_append_left hp']
+    have hv : (({ h with data := h.data ++ [v] } : H α).report h.len).get h.len = v := by
+      simp [H.get, H.len, List.getD_eq_getElem?_getD]
+    rw [hg, hv, hmax _ (get_mem h _ hp)]
+    rfl
+  · rw [if_neg h0]
+
+/-- … and heap order (standard child layout) is kept -/
+theorem add_max_heap {cfg : Cfg} (hc : CfgOK cfg) {lt : α → α → Bool} (h : H α) (v : α)
+    (hmax : ∀ x ∈ h.data, lt v x = false) (hh : HeapFrom lt h 0) : HeapFrom lt (add cfg lt h v).1 0 := by
+  rw [add_eq_of_max hc lt h v hmax]
+  set h0 : H α := { h with data := h.data ++ [v] } with hh0
+  have hlen0 : h0.len = h.len + 1 := by simp [hh0, H.len]
+  have hget0 : ∀ k, k < h.len → h0.get k = h.get k := by
+    intro k hk; simp only [H.len] at hk
+    simp [hh0, H.get, List.getD_eq_getElem?_getD, List.getElem?_append_left hk]
+  have hgetn : h0.get h.len = v := by
+    simp [hh0, H.get, H.len, List.getD_eq_getElem?_getD]
+  intro k _ c hc' hcl
+  simp only [report_len, hlen0] at hcl
+  simp only [report_get]
+  by_cases hcn : c = h.len
+  · rw [hcn, hgetn, hget0 k (by omega)]
+    exact hmax _ (get_mem h k (by omega))
+  · rw [hget0 c (by omega), hget0 k (by omega)]
+    exact hh k (Nat.zero_le _) c hc' (by omega)
+
+/-- `pop(i)` of the **last** slot (`i = len - 1`): no element moves, the array is cut; holds for every
+configuration with `left i > i` (with or without sift-up: the guard `i < n` fails) -/
+theorem pop_last_data {cfg : Cfg} (hl : ∀ i, i < cfg.left i) (lt : α → α → Bool) (h : H α) (i : Nat)
+    (hi : i + 1 = h.len) : (pop cfg lt h i).1.data = h.data.take i := by
+  rw [pop_eq]
+  by_cases hn : h.len - 1 = 0
+  · rw [if_pos hn]
+    have : i = 0 := by omega
+    simp [this]
+  · rw [if_neg hn]
+    have hcl : (popCut h i).len = i := by rw [popCut_len]; omega
+    have hpd : ∀ f, pushDown cfg lt f (popCut h i) i = (popCut h i, i) := by
+      intro f
+      cases f with
+      | zero => rfl
+      | succ f =>
+        rw [pushDown_succ, if_neg]
+        have := hl i; omega
+    have hii : h.len - 1 = i := by omega
+    have hdata : (popCut h i).data = h.data.take i := by
+      have hilt : i < h.data.length := by simp only [H.len] at hi; omega
+      rw [popCut_data, hii, swap_data]
+      apply List.ext_getElem?
+      intro k
+      simp only [List.getElem?_take]
+      split
+      · rename_i hk
+        rw [List.getElem?_set_ne (by omega), List.getElem?_set_ne (by omega)]
+      · rfl
+    simp only [hpd, hcl, Nat.lt_irrefl, decide_false, Bool.and_false, Bool.false_eq_true, if_false]
+    exact hdata
+
+/-- heap order survives cutting the array -/
+theorem heapFrom_take {lt : α → α → Bool} (h h' : H α) (n : Nat) (hd : h'.data = h.data.take n)
+    (hh : HeapFrom lt h 0) : HeapFrom lt h' 0 := by
+  have hlen : h'.len ≤ n ∧ h'.len ≤ h.len := by
+    simp only [H.len, hd, List.length_take]; omega
+  have hget : ∀ k, k < h'.len → h'.get k = h.get k := by
+    intro k hk
+    have : k < n := by omega
+    simp [H.get, hd, List.getD_eq_getElem?_getD, this]
+  intro k _ c hc hcl
+  rw [hget c hcl, hget k (by omega)]
+  exact hh k (Nat.zero_le _) c hc (by omega)
+
+/-- **removing the last slot preserves heap order** -/
+theorem pop_last_heap {cfg : Cfg} (hl : ∀ i, i < cfg.left i) {lt : α → α → Bool} (h : H α) (i : Nat)
+    (hi : i + 1 = h.len) (hh : HeapFrom lt h 0) : HeapFrom lt (pop cfg lt h i).1 0 :=
+  heapFrom_take h _ i (pop_last_data hl lt h i hi) hh
+
 /-! ## Part 4: the repaired configuration (`parent i = (i-1)/2`, `pop` sifts up) -/
 
 structure CfgRepaired (cfg : Cfg) : Prop extends CfgLayout cfg where
